@@ -150,6 +150,7 @@ def diff_from_lcs(A: "Seq[V]", B: "Seq[V]", A_indices: "Seq[int]", B_indices: "S
     requires(all(cmp(compare, A[A_indices[r]], B[B_indices[r]]) for r in range(len(A_indices))))
     ensures(wf_seq(result, len(A)))
     ensures(aligned(A, B, result, compare))
+    ensures(all(result[q].op != "patch" for q in range(len(result))))
     finally_check(result == after_loop(1, di._diff) + result[len(after_loop(1, di._diff)):])
     finally_hint(fold1(A, B, compare, after_loop(1, di._diff), result[len(after_loop(1, di._diff)):]))
     finally_hint(fold2(A, B, compare, after_loop(1, di._diff), result[len(after_loop(1, di._diff)):]))
@@ -168,6 +169,7 @@ def diff_from_lcs(A: "Seq[V]", B: "Seq[V]", A_indices: "Seq[int]", B_indices: "S
         invariant(implies(r > 0, x == A_indices[r - 1] + 1 and y == B_indices[r - 1] + 1))
         invariant(sorted_b(di._diff))
         invariant(all(wf_entry(di._diff[q], N) for q in range(len(di._diff))))
+        invariant(all(di._diff[q].op != "patch" for q in range(len(di._diff))))
         invariant(all(ordered(di._diff[p], di._diff[q]) for p in range(len(di._diff)) for q in range(p + 1, len(di._diff))))
         invariant(all(di._diff[q].key + span(di._diff[q]) <= x and di._diff[q].key < x or x == 0 for q in range(len(di._diff))))
         invariant(x > 0 or len(di._diff) == 0)
@@ -251,6 +253,7 @@ def bruteforce_lcs_indices(A: "Seq[V]", B: "Seq[V]", G: "Seq[Seq[bool]]", R: "Se
 def diff_sequence_bruteforce(A: "Seq[V]", B: "Seq[V]", compare: "fn") -> "Seq[E]":
     ensures(wf_seq(result, len(A)))
     ensures(aligned(A, B, result, compare))
+    ensures(all(result[q].op != "patch" for q in range(len(result))))
 
 
 # ------------------------------------------------------------------ generic list differ
@@ -268,6 +271,7 @@ def count_consumed_symbols(e: "E") -> "Tuple[int,int]":
 def diff_sequence(a: "Seq[V]", b: "Seq[V]", compare: "fn") -> "Seq[E]":
     ensures(wf_seq(result, len(a)))
     ensures(aligned(a, b, result, compare))
+    ensures(all(result[q].op != "patch" for q in range(len(result))))
 
 
 @assumed("nbdime.diffing.generic._lookup_predicates", properties=["C02", "C12"])
@@ -374,6 +378,7 @@ def diff_sequence_multilevel(a: "Seq[V]", b: "Seq[V]", path: "path", config: "cf
     requires(preds_diffable(preds_at(path)))
     ensures(wf_seq(result, len(a)))
     ensures(apply_seq(a, result) == b)
+    ensures(all(implies(result[q].op == "patch", wf_v(a[result[q].key], result[q].diff)) for q in range(len(result))))
 
 
 @contract("nbdime.diffing.generic.diff_lists", properties=["C02", "C11", "C01"])
@@ -387,8 +392,12 @@ def diff_lists(a: "Seq[V]", b: "Seq[V]", path: "path", config: "cfg", shallow_di
     requires(implies(len(preds_at(path)) > 1, preds_diffable(preds_at(path))))
     ensures(wf_seq(result, len(a)))
     ensures(apply_seq(a, result) == b)
+    # deep well-formedness (C11): the nested diff of every patch entry is well formed for the item it patches
+    ensures(all(implies(result[q].op == "patch", wf_v(a[result[q].key], result[q].diff)) for q in range(len(result))))
     with loop(1):
         invariant(M == len(shallow_diff) and len(compares) == 1 and compares == preds_at(path))
+        invariant(all(shallow_diff[q].op != "patch" for q in range(len(shallow_diff))))
+        invariant(all(implies(di._diff[q].op == "patch", wf_v(a[di._diff[q].key], di._diff[q].diff)) for q in range(len(di._diff))))
         invariant(subpath == path_star(path) and diffit == differs_at(subpath))
         invariant(wf_seq(shallow_diff, len(a)) and aligned(a, b, shallow_diff, compares[0]))
         invariant(implies(ie <= M, i == rtake(a, shallow_diff[:ie]) and j == len(rout(a, shallow_diff[:ie]))))
@@ -421,6 +430,7 @@ def diff_lists(a: "Seq[V]", b: "Seq[V]", path: "path", config: "cfg", shallow_di
         finally_hint(fold1(a, b, compares[0], after_loop(2, di._diff), di._diff[len(after_loop(2, di._diff)):]))
     with loop(2):
         invariant(0 <= k and i + k <= len(a) and j + k <= len(b))
+        invariant(all(implies(di._diff[q].op == "patch", wf_v(a[di._diff[q].key], di._diff[q].diff)) for q in range(len(di._diff))))
         invariant(0 <= rtake(a, di._diff) and rtake(a, di._diff) <= i + k)
         invariant(len(rout(a, di._diff)) + i + k - rtake(a, di._diff) == j + k)
         invariant(pref_eq(rout(a, di._diff), b))
@@ -453,7 +463,9 @@ def compute_diff_from_snakes(a: "Seq[V]", b: "Seq[V]", snakes: "Seq[T3]", path: 
                  for q in range(len(snakes)) for p in range(len(a))))
     ensures(wf_seq(result, len(a)))
     ensures(apply_seq(a, result) == b)
+    ensures(all(implies(result[q].op == "patch", wf_v(a[result[q].key], result[q].diff)) for q in range(len(result))))
     with loop(1, index="s"):
+        invariant(all(implies(di._diff[q].op == "patch", wf_v(a[di._diff[q].key], di._diff[q].diff)) for q in range(len(di._diff))))
         invariant(i1 == len(a) and j1 == len(b) and subpath == path_star(path) and diffit == differs_at(subpath))
         invariant(0 <= i0 and i0 <= len(a) and 0 <= j0 and j0 <= len(b))
         invariant(implies(s == 0, i0 == 0 and j0 == 0))
@@ -481,6 +493,7 @@ def compute_diff_from_snakes(a: "Seq[V]", b: "Seq[V]", snakes: "Seq[T3]", path: 
         entry_check(len(rout(a, di._diff)) + i - rtake(a, di._diff) == j)
         entry_check(pref_eq(rout(a, di._diff), b))
         invariant(0 <= k and i + k <= len(a) and j + k <= len(b))
+        invariant(all(implies(di._diff[q].op == "patch", wf_v(a[di._diff[q].key], di._diff[q].diff)) for q in range(len(di._diff))))
         invariant(all(diffable(a[i + u], b[j + u]) for u in range(n)))
         invariant(0 <= rtake(a, di._diff) and rtake(a, di._diff) <= i + k)
         invariant(len(rout(a, di._diff)) + i + k - rtake(a, di._diff) == j + k)
